@@ -244,6 +244,36 @@ func c36(r *core.Run) {
 				"once the stored key file has been moved to its backup, every way out of the import restores it on error",
 				"a path from the successful backup to a return bypasses the deferred restore: a failed import leaves the key file renamed away, and the next Key() call silently creates a new key under any password")
 		}
+		// F2: inside the deferred closure, restore runs for EVERY error: from the edge
+		// "err != nil" every path to the closure's return passes the restore call, and no
+		// other branch sits between that test and the restore
+		for _, cl := range core.Closures(fn) {
+			rs := core.Calls(cl, "(*"+fp+".Service).restore")
+			if len(rs) == 0 {
+				continue
+			}
+			r.Saw(core.FuncName(cl))
+			r.Eval(core.EdgeCount(cl))
+			isErrCell := func(v ssa.Value) bool {
+				p, ok := core.LoadedFrom(v)
+				if !ok {
+					return false
+				}
+				fv, ok := p.(*ssa.FreeVar)
+				return ok && fv.Name() == "err"
+			}
+			failed, _ := core.AtomEdges(cl, func(base ssa.Value) (bool, bool) {
+				x, eq, ok := core.NilCmp(base)
+				if ok && isErrCell(x) {
+					return true, !eq
+				}
+				return false, false
+			})
+			isRestore := func(in ssa.Instruction) bool { return core.IsCallTo(in, "(*"+fp+".Service).restore") }
+			ok := len(failed) > 0 && mustPassFrom(edgeTargets(failed), isRestore)
+			r.Check("C36.F2", lsKey("C36.F2", cl, "rollback for every error of the import"), rs[0].Pos(), ok,
+				"the deferred rollback restores the key file whenever the import returns an error, whatever the error", "the deferred rollback does not restore the backup for some errors (a path from err != nil reaches the closure's return without restore): an import rejected after the backup leaves the key file renamed away, and the next Key() silently creates a new key under any password")
+		}
 	}
 
 	// --- G3 file.Key
